@@ -62,7 +62,7 @@ FillCandle(p, tf) == MkCandle(p.ts + tf, p.c, p.c, p.c, p.c, Zero)
 
 InsertAt(s, i, x) == SubSeq(s, 1, i - 1) \o <<x>> \o SubSeq(s, i, Len(s))
 
-MaxFill == 400
+MaxFill == 4000
 \* index is the 1-based position of the candle compared with its predecessor
 RECURSIVE FillLoop(_, _, _)
 FillLoop(cs, i, tf) ==
@@ -70,7 +70,8 @@ FillLoop(cs, i, tf) ==
       cs2 == IF p.ts # NoTs /\ cs[i].ts # p.ts + tf
              THEN InsertAt(cs, i, FillCandle(p, tf)) ELSE cs
   \* (a list beyond MaxFill candles is not walked further: the recursion would outgrow TLC's
-  \*  stack; recorded scenarios stay far below it, so reaching it is itself a mismatch)
+  \*  stack; recorded scenarios -- a pause of 2000 buckets included -- stay below it, so reaching it is
+  \*  itself a mismatch.  The library has no such limit and the properties allow none.)
   IN IF i + 1 > Len(cs2) \/ Len(cs2) > MaxFill THEN cs2 ELSE FillLoop(cs2, i + 1, tf)
 
 FillWalk(cs, tf) == IF Len(cs) < 2 THEN cs ELSE FillLoop(cs, 2, tf)
